@@ -250,7 +250,7 @@ def toks(e, console):
     if k == "T":
         return ["T", enc_text(e[1])]
     if k == "S":  # a str is what console.render_str makes of it (markup, emoji codes, highlighter spans)
-        return ["T", enc_text_obj(console.render_str(e[1]))]
+        return ["S", enc_text_obj(console.render_str(e[1]))]
     if k == "PAD":
         return ["PAD"] + [str(x) for x in e[1]] + [enc_bool(e[2])] + toks(e[3], console)
     if k == "PANEL":
@@ -344,14 +344,13 @@ def _alarm(_sig, _frm):
     raise Timeout()
 
 
-def guarded(f, seconds=10):
-    """run f() with a wall-clock limit (a mutated loop may not terminate); every exception is an answer"""
+def _guarded_once(f, seconds):
     old = signal.signal(signal.SIGALRM, _alarm)
     signal.setitimer(signal.ITIMER_REAL, seconds)
     try:
         return f()
     except Timeout:
-        return "err:Other:Timeout"
+        return Timeout
     except BaseException as ex:  # noqa: BLE001 - an undocumented exception is an observation, not a harness error
         if isinstance(ex, (KeyboardInterrupt, SystemExit)):
             raise
@@ -359,6 +358,15 @@ def guarded(f, seconds=10):
     finally:
         signal.setitimer(signal.ITIMER_REAL, 0)
         signal.signal(signal.SIGALRM, old)
+
+
+def guarded(f, seconds=20):
+    """run f() with a wall-clock limit (a mutated loop may not terminate); every exception is an answer.  A first timeout is retried
+    once with a longer limit: on a loaded machine a 0.2 s rendering has been seen to stall for more than 10 s."""
+    r = _guarded_once(f, seconds)
+    if r is Timeout:
+        r = _guarded_once(f, 4 * seconds)
+    return "err:Other:Timeout" if r is Timeout else r
 
 
 def options_for(console, opts, w):
@@ -539,8 +547,10 @@ def domain(e, opts, console):
         nonlocal res
         if r == "out" or res == "out":
             res = "out"
-        elif r == "f23":
+        elif r == "f23" or res == "f23":
             res = "f23"
+        elif r == "rz":
+            res = "rz"
 
     if k == "T":
         return "out" if eff_overflow(e[1], opts) == "ignore" or e[1].get("end", "\n") not in ("\n", "") else "in"
@@ -553,16 +563,10 @@ def domain(e, opts, console):
     if k in ("STY", "CAST", "OPQ"):
         return domain(e[1], opts, console)
     if k == "CON":
-        if e[1] is not None and e[1] < smin(e[2]):
-            return "out"
+        # Dom asks `Constrain(width=k)` for k >= smin(child); no counterexample is known below that, so evaluate everywhere
         return domain(e[2], opts, console)
     if k == "ALIGN":
-        m = real_measure(console, e[2], console.width)
-        if isinstance(m, str):
-            return "out"
-        need = smin(e[2])
-        if max(1, m[1]) < need or (e[1].get("width") is not None and e[1]["width"] < need):
-            return "out"
+        # likewise for the width Align picks (the child's measured maximum)
         return domain(e[2], opts, console)
     if k == "GRP":
         items = e[2]
@@ -580,18 +584,74 @@ def domain(e, opts, console):
         for co, _h, _f, _cs in cols:
             if co.get("width") is not None or co.get("min_width") is not None or co.get("no_wrap", False):
                 return "out"
-        if o.get("width") is not None:
-            box = o.get("box", "HEAVY_HEAD")
-            extra = (2 if box is not None and o.get("show_edge", True) else 0) + (len(cols) - 1 if box is not None else 0)
-            if o["width"] < extra + len(cols):
-                return "out"
-        return "in"
+        if ratio_zero_table(e):
+            return "rz"
+        return "in"  # (Dom also asks an explicit Table(width) for one cell per column; no counterexample known: evaluated everywhere)
     if k == "COLS":
         d = e[1].get("title")
         if d is not None and (eff_overflow(d, opts) == "ignore" or d.get("end", "\n") != "\n"):
             return "out"
+        if e[1].get("width") == 0:
+            return "out"  # Columns(width=0): as many zero-width columns as there are cells; every one still gets a cell (witness in Props/C01.lean)
         return "in"
     raise ValueError(k)
+
+
+def ratio_zero_table(e):
+    """an expanding table with an active ratio column AND a ratio=0 column (finding table-ratio-zero-column): the ratio=0
+    column is handed 0 cells, and one cell by the re-measure after a collapse"""
+    if e[0] != "TABLE":
+        return False
+    o, cols = e[1], e[2]
+    expands = o.get("expand", False) or o.get("width") is not None
+    ratios = [co.get("ratio") for co, _h, _f, _cs in cols]
+    return bool(expands and any(r for r in ratios) and any(r == 0 for r in ratios))
+
+
+def any_ratio_zero_table(e):
+    k = e[0]
+    if k == "TABLE":
+        return ratio_zero_table(e) or any(any_ratio_zero_table(h) or any_ratio_zero_table(f) or any(any_ratio_zero_table(c) for c in cs) for _co, h, f, cs in e[2])
+    if k == "PAD":
+        return any_ratio_zero_table(e[3])
+    if k in ("PANEL", "ALIGN", "CON"):
+        return any_ratio_zero_table(e[2])
+    if k in ("STY", "CAST", "OPQ"):
+        return any_ratio_zero_table(e[1])
+    if k in ("GRP", "COLS"):
+        return any(any_ratio_zero_table(c) for c in e[2])
+    if k == "TREE":
+
+        def node(n):
+            return any_ratio_zero_table(n[0]) or any(node(c) for c in n[3])
+
+        return node(e[1])
+    return False
+
+
+def has_styled_rule(e):
+    """a Rule whose title is a Text object: Rule.__rich_console__ truncates that object in place, so rendering the same Rule
+    twice (first narrow, then wide) keeps the narrow title — state outside the composition model (rule.py:67-79)"""
+    k = e[0]
+    if k == "RULE":
+        return bool(e[1].get("title_styled") and e[1].get("title"))
+    if k == "PAD":
+        return has_styled_rule(e[3])
+    if k in ("PANEL", "ALIGN", "CON"):
+        return has_styled_rule(e[2])
+    if k in ("STY", "CAST", "OPQ"):
+        return has_styled_rule(e[1])
+    if k in ("GRP", "COLS"):
+        return any(has_styled_rule(c) for c in e[2])
+    if k == "TABLE":
+        return any(has_styled_rule(h) or has_styled_rule(f) or any(has_styled_rule(c) for c in cs) for _co, h, f, cs in e[2])
+    if k == "TREE":
+
+        def node(n):
+            return has_styled_rule(n[0]) or any(node(c) for c in n[3])
+
+        return node(e[1])
+    return False
 
 
 def has_kind(e, kind):
@@ -730,7 +790,7 @@ def gen_col_opts(rng, free):
     if rng.random() < 0.25:
         co["max_width"] = rng.choice([1, 3, 6, 12])
     if rng.random() < 0.2:
-        co["ratio"] = rng.choice([1, 2, 3])
+        co["ratio"] = rng.choice([1, 2, 3, 1, 2, 0])
     if not free:
         r = rng.random()
         if r < 0.35:
